@@ -696,7 +696,16 @@ func (m *modelClient) run(deadline time.Duration) {
 	lastPkts, lastPktAt, usableSecs := 0, time.Now(), 0
 	var werr, rerr error
 	wOK, rOK := false, false
-	for !(wOK && rOK) {
+	allArrived := func() bool {
+		plan.mu.Lock()
+		defer plan.mu.Unlock()
+		return plan.upVerified >= plan.LenUp
+	}
+	// the session is complete when both directions are written and read here AND
+	// the bridge side has verified everything written upstream (the client must
+	// not go away earlier: nothing would carry the rest); the stall rules and the
+	// watchdog keep applying until then
+	for !(wOK && rOK && allArrived()) {
 		select {
 		case werr = <-wdone:
 			wOK = true
@@ -751,12 +760,6 @@ func (m *modelClient) run(deadline time.Duration) {
 			}
 		}
 	}
-	// let the bridge side drain before closing: it must read exactly LenUp bytes
-	waitFor(30*time.Second, func() bool {
-		plan.mu.Lock()
-		defer plan.mu.Unlock()
-		return plan.upVerified >= plan.LenUp
-	})
 	plan.mu.Lock()
 	plan.clientDone = true
 	plan.mu.Unlock()
